@@ -28,6 +28,7 @@ import (
 	"net/http/httptest"
 	"os"
 	"path"
+	"regexp"
 	"runtime"
 	"strconv"
 	"strings"
@@ -715,7 +716,12 @@ func init() {
 		for _, t := range stubTypes {
 			sm.AddFunc(t, stub(t))
 		}
-		cts := []string{"", "text/css", "text/html; charset=utf-8", "application/json", "image/svg+xml", "text/plain", "TEXT/CSS", "application/octet-stream", " text/css"}
+		// minifiers registered by PATTERN (as minify.Default and the README do): the middleware must select them exactly as the plain call does,
+		// also when the Content-Type carries parameters
+		sm.AddFuncRegexp(regexp.MustCompile("[/+]json$"), stub("json-pattern"))
+		sm.AddFuncRegexp(regexp.MustCompile("^text/x-[a-z]+$"), stub("x-pattern"))
+		cts := []string{"", "text/css", "text/html; charset=utf-8", "application/json", "image/svg+xml", "text/plain", "TEXT/CSS", "application/octet-stream", " text/css",
+			"application/ld+json", "application/ld+json; charset=utf-8", "text/x-foo ; q=1", "text/x-foo", "application/manifest+json;v=2"}
 		uris := []string{"/", "/a.css", "/a.html", "/a.js", "/a.json", "/a.svg", "/a.xml", "/a.txt", "/dir.css/a", "/a.CSS", "/a.css?x=1", "/a"}
 		var lines []string
 		type mwCase struct{ key, got, ct, ext string }
@@ -733,10 +739,13 @@ func init() {
 				if ct != "" {
 					eff = ct
 				}
+				// byte-identical to the plain reader-to-writer call for the effective media type (pass-through when that call says not-exist)
 				want := string(body)
-				if _, _, f := sm.Match(eff); f != nil {
-					mimetype, _ := parse.Mediatype([]byte(eff))
-					want = "[" + string(mimetype) + ":10]"
+				var plainOut bytes.Buffer
+				if perr := sm.Minify(eff, &plainOut, bytes.NewReader(body)); perr == nil {
+					want = plainOut.String()
+				} else if !errors.Is(perr, minify.ErrNotExist) {
+					want = "error:" + perr.Error()
 				}
 				if string(out) != want {
 					c.R.Add(h.Finding{Stage: st3.Name, Kind: "fail", What: "middleware picked the wrong minifier (rule: Content-Type first, else path extension)", Input: key, Impl: h.Q(out), Model: want})
